@@ -198,6 +198,10 @@ func (s *Scn) do(op string) Outcome {
 		}
 		s.InTx = true
 		_ = s.wexec("PRAGMA cache_size = 1")
+		// Touch an existing page first so that the spilled (uncommitted) frames
+		// include a new version of a page that already exists in the database.
+		s.rowSeq++
+		_ = s.wexec("UPDATE t SET v = v || ?", pay(s.rowSeq, 7))
 		s.rowSeq++
 		n := 30
 		if arg != "" {
@@ -355,6 +359,43 @@ func (s *Scn) do(op string) Outcome {
 			return Outcome{}
 		}
 		return Outcome{Err: err}
+	case "RETL0A", "RET9A": // arg k: age the first k remote files of the level by 2h (Chtimes), then run the pass with a 1h threshold
+		if !s.LSOpen {
+			return ill
+		}
+		lvl := 0
+		if name == "RET9A" {
+			lvl = litestream.SnapshotLevel
+		}
+		k, _ := strconv.Atoi(arg)
+		fs := ListLevel(s.ReplicaDir, lvl)
+		if k > len(fs) {
+			return ill
+		}
+		old := time.Now().Add(-2 * time.Hour)
+		for _, f := range fs[:k] {
+			if f.MTime.After(old) {
+				os.Chtimes(s.ReplicaFilePath(f), old, old)
+			}
+		}
+		if lvl == 0 {
+			s.DB.L0Retention = time.Hour
+			return Outcome{Err: s.DB.EnforceL0RetentionByTime(ctx)}
+		}
+		if s.Store != nil {
+			s.Store.SnapshotRetention = time.Hour
+			return Outcome{Err: s.Store.EnforceSnapshotRetention(ctx, s.DB)}
+		}
+		floor, err := s.DB.EnforceSnapshotRetention(ctx, time.Now().Add(-time.Hour))
+		if err != nil {
+			return Outcome{Err: err}
+		}
+		for _, l := range s.Cfg.Levels {
+			if err := s.DB.EnforceRetentionByTXID(ctx, l, floor); err != nil {
+				return Outcome{Err: err}
+			}
+		}
+		return Outcome{}
 	case "RETL0": // arg k: the first k remote L0 files are older than the threshold
 		if !s.LSOpen {
 			return ill
@@ -509,7 +550,7 @@ func (s *Scn) do(op string) Outcome {
 
 func isLSOp(name string) bool {
 	switch name {
-	case "S", "RS", "RSL", "SW", "SD", "LC", "SNAP", "FSNAP", "CMP", "RETL0", "RET9", "CL", "START", "RSET":
+	case "S", "RS", "RSL", "SW", "SD", "LC", "SNAP", "FSNAP", "CMP", "RETL0", "RET9", "RETL0A", "RET9A", "CL", "START", "RSET":
 		return true
 	}
 	return false
